@@ -118,6 +118,7 @@ func c16w(c *ctx) {
 // ---------------------------------------------------------------- C18: reset / pooled reuse == fresh
 
 var wHistAlphabet = []wop{
+	{"Write", "0", ""}, {"ReadFrom", "0", "eof"},
 	{"Write", "1", ""}, {"Write", "a", ""}, {"Write", "a+1", ""}, {"Write", "2s+1", ""},
 	{"WriteThrough", "s+1", ""}, {"ReadFrom", "a+1", "eof"}, {"ReadFrom", "s+1", "err"},
 	{"FlushFragment", "", ""}, {"Flush", "", ""}, {"Grow", "2s+1", ""}, {"DisableFlush", "", ""}, {"SetExt", "1", ""},
@@ -169,7 +170,7 @@ func c18w(c *ctx) {
 						continue
 					}
 					seqs(wSuffixAlphabet, 2, func(sfx []wop) {
-						if !c.thorough && (opsKey(sfx) != "Wr1,Wr1") && (n+len(opsKey(sfx)))%5 != 0 {
+						if !c.thorough && (opsKey(sfx) != "Wr1,Wr1") && (opsKey(sfx) != "Fl,Wr1") && (n+len(opsKey(sfx)))%5 != 0 {
 							return
 						}
 						ops := append(append([]wop(nil), h...), rs)
